@@ -20,6 +20,7 @@ structure Meta where
   st : Option Nat := none        -- 0 current, 1 deprecated, 2 obsolete
   iff : List Tok := []           -- if-feature references
   notSupported : Bool := false   -- deviated not-supported
+  ns : Tok := []                 -- the module the node belongs to (its namespace)
   deriving Repr, DecidableEq
 
 inductive A where
@@ -47,6 +48,7 @@ structure Attr where
   keys : List Tok := []
   mn : Option Nat := none          -- min-elements / max-elements as written
   mx : Option Nat := none
+  ns : Tok := []
   deriving Repr, DecidableEq
 
 inductive CN where
@@ -134,26 +136,26 @@ def build (f : Attr → Bool) (env : FeatEnv) (inh : Inh) : A → Except String 
     let i ← inherit m inh
     let ks ← buildKids f env i kids
     checkNames (flatNames ks)
-    pure (.mk { kind := .container, name := n, cfg := i.cfg, st := i.st, flag := pr } ks)
+    pure (.mk { kind := .container, name := n, cfg := i.cfg, st := i.st, flag := pr, ns := m.ns } ks)
   | .list n m keys mn mx kids => do
     let i ← inherit m inh
     let ks ← buildKids f env i kids
     checkNames (flatNames ks)
-    pure (.mk { kind := .list, name := n, cfg := i.cfg, st := i.st, keys := keys, mn := mn, mx := mx } ks)
+    pure (.mk { kind := .list, name := n, cfg := i.cfg, st := i.st, keys := keys, mn := mn, mx := mx, ns := m.ns } ks)
   | .leaf n m mand d => do
     let i ← inherit m inh
     if mand && d.isSome then .error "Leaf cannot have default and be mandatory."
-    else pure (.mk { kind := .leaf, name := n, cfg := i.cfg, st := i.st, flag := mand, dflt := d } [])
+    else pure (.mk { kind := .leaf, name := n, cfg := i.cfg, st := i.st, flag := mand, dflt := d, ns := m.ns } [])
   | .leafList n m mn mx => do
     let i ← inherit m inh
-    pure (.mk { kind := .leafList, name := n, cfg := i.cfg, st := i.st, mn := mn, mx := mx } [])
+    pure (.mk { kind := .leafList, name := n, cfg := i.cfg, st := i.st, mn := mn, mx := mx, ns := m.ns } [])
   | .choice n m mand d cases => do
     let i ← inherit m inh
     let ks ← buildKids f env i cases
     if d.isSome && mand then .error "Choice cannot have default and be mandatory."
     else do
       checkNames (flatCaseNames ks)
-      let a : Attr := { kind := .choice, name := n, cfg := i.cfg, st := i.st, flag := mand, dflt := d }
+      let a : Attr := { kind := .choice, name := n, cfg := i.cfg, st := i.st, flag := mand, dflt := d, ns := m.ns }
       -- checkChoiceDefaultCaseExists: not for a choice the filter is about to remove
       match d with
       | some dc =>
@@ -164,7 +166,7 @@ def build (f : Attr → Bool) (env : FeatEnv) (inh : Inh) : A → Except String 
     let i ← inherit { m with cfg := none } inh
     let ks ← buildKids f env i kids
     checkNames (flatNames ks)
-    pure (.mk { kind := .case, name := n, cfg := i.cfg, st := i.st } ks)
+    pure (.mk { kind := .case, name := n, cfg := i.cfg, st := i.st, ns := m.ns } ks)
 /-- `buildChildren`: ignore, build (with all its checks), then filter -/
 def buildKids (f : Attr → Bool) (env : FeatEnv) (inh : Inh) : List A → Except String (List CN)
   | [] => pure []
